@@ -5,7 +5,7 @@ set -u
 patch=$1; shift
 W=$(mktemp -d /tmp/mut.XXXXXX)
 H=$(printf '%s' "$(readlink -f "$W")" | sha1sum | cut -c1-10)
-git -C /repo worktree add -q --detach "$W" HEAD || exit 3
+git -C /repo worktree add -q --detach "$W" "${SEED_BASE:-HEAD}" || exit 3
 if [ "$patch" != "-" ]; then git -C "$W" apply "$patch" || { git -C /repo worktree remove --force "$W"; exit 3; }; fi
 if [ -n "${MUT_CMD:-}" ]; then (cd "$W" && bash -c "$MUT_CMD") || { git -C /repo worktree remove --force "$W"; exit 3; }; fi
 (cd "$W" && GOFLAGS=-mod=mod GOPROXY=off GOSUMDB=off GOTOOLCHAIN=local go build ./... ) || { echo "MUTANT DOES NOT BUILD"; git -C /repo worktree remove --force "$W"; exit 3; }
